@@ -474,9 +474,16 @@ pub assume_specification<T: Clone, EE: Clone> [<Result<T, EE> as Clone>::clone] 
     !context.global(), oq3_v1@.len() + oq3_it1.rest().len() <= block.sp_statements().len(),
     oq3_it1.rest().len() <= block.sp_statements().len(),
     oq3_it1.rest() =~= block.sp_statements().skip(block.sp_statements().len() - oq3_it1.rest().len()),
-    forall|i: int| 0 <= i < block.sp_statements().len() - oq3_it1.rest().len() ==> decl_bound(*context, #[trigger] block.sp_statements()[i]),''')},
-        spec=NONGLOBAL + 'ensures grows(*old(context), *final(context)), r@.len() <= block.sp_statements().len(),\n    ' + DECLS % ('block', 'block'))
-    zov['block_expr_to_asg_type'].update(spec=NONGLOBAL + 'ensures grows(*old(context), *final(context)),\n    ' + DECLS % ('block_synast', 'block_synast'))
+    forall|i: int| 0 <= i < block.sp_statements().len() - oq3_it1.rest().len() ==> decl_bound(*context, #[trigger] block.sp_statements()[i]),
+    block_ok(block.sp_statements().take(block.sp_statements().len() - oq3_it1.rest().len()), oq3_v1@),''')},
+        spec=NONGLOBAL + 'ensures grows(*old(context), *final(context)), r@.len() <= block.sp_statements().len(),\n    ' + DECLS % ('block', 'block')
+             + '\n    block_ok(block.sp_statements(), r@),     //@C06:block-holds-the-translations-of-its-statements-in-order',
+        ghost=[('{', 'after', 'proof { assert(block.sp_statements().take(0) =~= Seq::<synast::Stmt>::empty()); }')],
+        loop_ghost='''broadcast use sema_lemmas;
+let ghost ss = block.sp_statements(); let ghost k = ss.len() - oq3_it1.rest().len(); let ghost v0 = oq3_v1@;
+proof { if k < ss.len() { assert(ss.take(k + 1).drop_last() =~= ss.take(k)); assert(ss.take(k + 1).last() == ss[k as int]); assert(oq3_it1.rest()[0] == ss[k as int]); } else { assert(ss.take(k as int) =~= ss); } }''')
+    zov['block_expr_to_asg_type'].update(ret='r', spec=NONGLOBAL + 'ensures grows(*old(context), *final(context)),\n    ' + DECLS % ('block_synast', 'block_synast')
+             + '\n    block_ok(block_synast.sp_statements(), r.statements@),     //@C06:block-holds-the-translations-of-its-statements-in-order')
     zov['block_or_stmt_to_asg_type'].update(spec=NONGLOBAL + 'ensures grows(*old(context), *final(context)),')
     zov['bind_parameter_list'].update(ret='r', props=['C09', 'C07', 'C03'], loops={1: ITER('oq3_it1', '''
     oq3_v1@.len() + oq3_it1.rest().len() == param_list.sp_params().len(),
